@@ -188,3 +188,20 @@ End ROut.
 Lemma ops_x1_cons C w hot o ops w' : apply_op w o = Some w' -> step_ok1 C w hot o -> ops_x1 C w' (hot_next C w hot o) ops ->
   ops_x1 C w hot (o :: ops).
 Proof. intros Ha Hs Hc. cbn [ops_x1]. rewrite Ha. now split. Qed.
+
+(* ---------------------------------------------------------------- the F10d history: replay on the repaired and on the pinned model *)
+Definition run_replay (C : cfg) (ops : list op) : option bool :=
+  match construct C kinit (w_fs w0) with
+  | Some (r, k) => match drun C false w0 k r ops [] with
+                   | Some (w', _, _, out) =>
+                     Some (same_tree (replay (c_recursive C) (c_root C) (tree_of (c_recursive C) (c_root C) w0) out)
+                                     (tree_of (c_recursive C) (c_root C) w'))
+                   | None => None
+                   end
+  | None => None
+  end.
+
+Lemma f10d_replay_pinned_refuted : run_replay (cfgo false) f10d_ops = Some false.
+Proof. vm_compute. reflexivity. Qed.
+Lemma f10d_replay_repaired : run_replay (cfgo true) f10d_ops = Some true /\ run_replay (cfgo true) f10b_ops = Some true.
+Proof. split; vm_compute; reflexivity. Qed.
